@@ -70,16 +70,18 @@ ASSUMPTIONS = [
 EXPECTED_PROBES = {
     'C04': ['alf_names', 'colvec', 'no_clusters_file', 'wmi_created', 'second_load', 'nonmonotonic',
             'sparse_templates', 'raw_extra_channels', 'poisoned', 'listing:shuffled', 'nan_template',
+            'template_with_nan_channel',
             'inf_of_both_signs_in_one_file', 'alf_label_in_names', 'raw_cbin', 'raw_npy',
             'loaded_under_second_listing_order', 'both_names_of_a_family_present',
             'unreadable_attribute_file', 'traces_read', 'params_name_a_missing_raw_file',
             'traces_read_with_channel_selector',
-            'alf_times_without_samples'],
+            'alf_times_without_samples', 'alf_times_single_precision'],
     'C05': ['sparse', 'dense', 'neighbourhood_bites', 'multi_shank', 'threshold_bites',
             'explicit_channels', 'minus_one_column', 'signal_free_column', 'all_zero_template',
             'queried_after_reload', 'wmi_file_left_by_earlier_load'],
     'C06': ['row_table', 'unknown_channel', 'empty_spike_list', 'waveform_route', 'tf_row_table',
-            'unsorted_spikes', 'same_table_densified_twice', 'very_large_unknown_channel_id'],
+            'unsorted_spikes', 'same_table_densified_twice', 'very_large_unknown_channel_id',
+            'minus_one_inside_column_rows', 'waveform_route_request_with_absent_spikes'],
     'C08': ['multi_template_cluster', 'empty_id', 'undo', 'dirty_reload', 'highest_template_unused',
             'single_spike_cluster', 'tie_in_spike_counts'],
     'C09': ['empty_highest_id', 'curated', 'depths', 'zero_positive_part', 'batch_boundary_size'],
@@ -135,6 +137,15 @@ def gen(rng, prop, tier):
     p = cfg['present']
     ns, nt, nc = cfg['ns'], cfg['nt'], cfg['nc']
     if prop == 'C04':
+        if cfg['names']['times'] == 'alf' and not p.get('samples_file') and rng.random() < 0.35:
+            p['raw'] = False
+            cfg['raw'] = None
+            cfg['knobs'].pop('chunk', None)
+            cfg['alf_times_f32'] = rng.choice([0, 1000, 2 ** 23 + 11, 2 ** 23 + 2 ** 22 + 5])
+        if any(po['kind'] == 'nan_column' for po in cfg['poison']) and rng.random() < 0.6:
+            # ... in a curated dataset: the loader computes cluster waveforms from the templates
+            cfg['curation'] = world.gen_curation_ops(rng, rng.randint(1, 3))
+            p['sclusters'] = True
         if rng.random() < 0.08:
             ops = [{'op': 'swap_times', 'i': rng.randrange(ns)}, {'op': 'load'}]
         else:
@@ -219,6 +230,10 @@ def gen(rng, prop, tier):
                 else:
                     ops.append({'op': 'q_from_sparse', 'seed': rng.randint(0, 10 ** 6)})
     elif prop == 'C08':
+        if rng.random() < 0.15:
+            # the assignments live under their ALF name only
+            cfg['names']['sclusters'] = 'alf'
+            p['sclusters'] = True
         if rng.random() < 0.5:
             cfg['curation'] = world.gen_curation_ops(rng, rng.randint(1, 3))
         ops = [{'op': 'load'}]
@@ -270,6 +285,10 @@ def gen(rng, prop, tier):
         cfg['raw']['format'] = 'flat'
         cfg['knobs']['chunk'] = rng.choice([3, 5, 11, 50, 200, 100000])
         cfg['ns'] = ns = max(ns, 30)
+        if rng.random() < 0.5:
+            # curated: the budget is per TEMPLATE whatever the cluster assignment says
+            cfg['curation'] = world.gen_curation_ops(rng, rng.randint(1, 3))
+            p['sclusters'] = True
         ops = [{'op': 'load'}]
         for _ in range(rng.randint(1, 3)):
             ops.append({'op': 'save_subset', 'n': rng.choice([1, 2, 3, 5, 50]),
@@ -284,6 +303,14 @@ def gen(rng, prop, tier):
                               'tail': rng.randint(1, 20), 'permute_map': rng.random() < 0.5}
             cfg['knobs']['chunk'] = rng.choice([5, 11, 50, 200])
         cfg['dtypes']['times'] = rng.choice(['uint64', 'uint64', 'int64', 'int32', 'uint32'])
+        if rng.random() < 0.08:
+            # a single template owns every spike (the others are stored but unused)
+            keep = rng.randrange(nt)
+            cfg['unused_templates'] = [t for t in range(nt) if t != keep]
+        if prop == 'C10' and rng.random() < 0.15:
+            # the assignments live under their ALF name only
+            cfg['names']['sclusters'] = 'alf'
+            p['sclusters'] = True
         ops = [{'op': 'load'}]
         if prop == 'C03':
             for _ in range(rng.randint(1, 3)):
@@ -301,7 +328,8 @@ def gen(rng, prop, tier):
                     ops.append({'op': 'q_waveforms', 'seed': rng.randint(0, 10 ** 6)})
         else:
             n_ops = rng.randint(2, 24 if not big else 36)
-            fields = ['group', 'quality', 'note', 'Amplitude', 'f%d' % rng.randint(0, 9)]
+            fields = ['group', 'quality', 'note', 'Amplitude', 'f%d' % rng.randint(0, 9),
+                      rng.choice(['i', 'in', 'inf', 'o', 'c', 'n_spikes', 'id'])]
             n_foreign = 0
             for _ in range(n_ops):
                 r = rng.random()
@@ -340,8 +368,15 @@ def gen(rng, prop, tier):
                                 if v is not None:
                                     row[f] = v
                         rows.append(row)
+                    fname = 'foreign%d' % n_foreign
+                    if kind != 'cluster_info' and rng.random() < 0.2:
+                        # short names, pieces of other names: only `cluster_info` is excluded
+                        fname = rng.choice(['cluster', 'info', 'c', 'cluster_', 'cluster_inform',
+                                            'luster_info', 'cluster_info_old', 'Cluster_Info'])
+                        if any(o.get('name') == fname for o in ops):
+                            fname = 'foreign%d' % n_foreign
                     ops.append({'op': 'foreign', 'kind': kind, 'ext': rng.choice(['.tsv', '.csv']),
-                                'name': 'foreign%d' % n_foreign, 'fields': fnames, 'rows': rows})
+                                'name': fname, 'fields': fnames, 'rows': rows})
                 elif r < 0.68 and p['raw']:
                     ops.append({'op': 'save_subset', 'n': rng.choice([1, 3, 5, 50]),
                                 'factor': rng.choice([1.0, 2.5])})
@@ -607,8 +642,25 @@ class DatasetWorld(object):
             ok = got is not None and (_aeq(got, exp) if exact else ref.close(got, exp, 1e-12))
             ctx.check(ok, 'attr-' + name, lambda: {'got': _desc(got), 'expected': _desc(exp)})
         dual = set(cfg.get('dual') or [])   # both names present: which wins is not asserted
-        eq('spike_samples', m.spike_samples, g.samples)
-        eq('spike_times', m.spike_times, g.samples / g.sr, exact=False)
+        if getattr(g, 'alf_times', None) is not None:
+            # single-precision seconds: "recovered by rounding" determines the sample only up to
+            # the precision the product can be formed in (half a sample plus half a float32 ulp)
+            ctx.probe('alf_times_single_precision')
+            t64 = g.alf_times.astype(np.float64)
+            exact = t64 * g.sr
+            bound = 0.5 + 0.5 * np.spacing(np.abs(exact).astype(np.float32)).astype(np.float64)
+            got = np.asarray(m.spike_samples)
+            ok = got.shape == exact.shape and got.dtype.kind in 'iu' and bool(
+                np.all(np.abs(got.astype(np.float64) - exact) <= bound * (1 + 1e-12)))
+            ctx.check(ok, 'attr-spike_samples',
+                      lambda: {'got': _desc(got), 'expected_about': _desc(exact),
+                               'stored_seconds_dtype': 'float32'})
+            eq('spike_times', m.spike_times, t64, exact=False)
+            # the reference adopts the admissible outcome for the rest of the run
+            g.samples = got.astype(np.int64)
+        else:
+            eq('spike_samples', m.spike_samples, g.samples)
+            eq('spike_times', m.spike_times, g.samples / g.sr, exact=False)
         if 'stemplates' not in dual:
             eq('spike_templates', m.spike_templates, g.stemplates)
             eq('spike_clusters', m.spike_clusters, self.current_clusters())
@@ -633,9 +685,22 @@ class DatasetWorld(object):
                                    m.n_samples_waveforms]})
         # templates (all-NaN templates are exempt: the statement is silent on mapped arrays)
         data = np.asarray(m.sparse_templates.data)
-        keep = [t for t in range(nt) if t not in g.nan_templates]
+        partial = sorted(set(t for t, _ in getattr(g, 'nan_columns', [])))
+        keep = [t for t in range(nt) if t not in g.nan_templates and t not in partial]
         ctx.check(data.shape == g.tmpl_data.shape and _aeq(data[keep], g.tmpl_data[keep]),
                   'attr-templates', lambda: {'got': _desc(data), 'expected': _desc(g.tmpl_data)})
+        for t in partial:
+            # a template with one all-NaN (or infinite) channel: its other channels equal the file;
+            # the non-finite entries of a mapped array may stay or be replaced by zero
+            ctx.probe('template_with_nan_channel')
+            want = np.asarray(g.tmpl_data[t])
+            have = np.asarray(data[t]) if data.shape == g.tmpl_data.shape else None
+            nanm = ~np.isfinite(want)
+            ok = have is not None and np.array_equal(have[~nanm], want[~nanm]) and bool(
+                np.all((have[nanm] == 0) | (have[nanm] == want[nanm])
+                       | (np.isnan(have[nanm]) & np.isnan(want[nanm]))))
+            ctx.check(ok, 'attr-templates', lambda: {'template': t, 'why': 'a template with one '
+                                                     'NaN channel lost its other channels'})
         if g.nan_templates:
             ctx.probe('nan_template')
         if cfg['sparse']:
@@ -766,7 +831,8 @@ class DatasetWorld(object):
                       lambda: {'attribute': 'spike_attributes',
                                'first': sorted(m.spike_attributes.keys()),
                                'second': sorted(m2.spike_attributes.keys())})
-            ctx.check(_aeq(np.asarray(m.sparse_templates.data), np.asarray(m2.sparse_templates.data)),
+            ta, tb = np.asarray(m.sparse_templates.data), np.asarray(m2.sparse_templates.data)
+            ctx.check(ta.shape == tb.shape and bool(np.array_equal(ta, tb, equal_nan=True)),
                       'load-depends-on-listing-order', lambda: {'attribute': 'templates'})
         finally:
             m2.close()
@@ -1019,6 +1085,15 @@ class DatasetWorld(object):
         cols = np.stack([rs.permutation(max(nch + 2, nloc))[:nloc] for _ in range(n)]) if n else \
             np.zeros((0, nloc), dtype=np.int64)
         cols = cols.astype(rs.choice(['int64', 'int32', 'uint32']))
+        if cols.dtype.kind == 'i' and n and rs.rand() < 0.35:
+            # unused (-1) entries anywhere in the rows, not only as trailing padding; sometimes in
+            # every row
+            every = rs.rand() < 0.5
+            for i in range(n):
+                if every or rs.rand() < 0.5:
+                    k = rs.randint(1, nloc + 1)
+                    cols[i, rs.permutation(nloc)[:k]] = -1
+            ctx.probe('minus_one_inside_column_rows')
         req = rs.permutation(nch + 4)[:rs.randint(1, nch + 1)]
         def expected(req_):
             exp_ = np.zeros((n, len(req_)) + extra)
@@ -1060,9 +1135,20 @@ class DatasetWorld(object):
         if not chans:
             return
         spikes = np.array(stored, dtype=np.int64)
+        all_stored = set(int(s) for s in np.asarray(sw.spike_ids))
+        absent = [s for s in range(self.cfg['ns']) if s not in all_stored]
+        if absent and (op['t'] + op['k'] + len(stored)) % 2:
+            # the request also names spikes the store does not hold (values claimed for stored
+            # spikes only: their features must not depend on who else is asked for)
+            extra = absent[::max(1, len(absent) // 3)][:3]
+            spikes = np.array(sorted(stored + extra), dtype=np.int64)
+            ctx.probe('waveform_route_request_with_absent_spikes')
         got = ctx.real('get_features', m.get_features, spikes, np.array(chans), owners=('C06',))
         ctx.op('q_features_wf', changes_state=False)
         ctx.probe('waveform_route')
+        ctx.check(got is not None and got.shape == (len(spikes), len(chans), 3),
+                  'waveform-features-shape', lambda: {'got': _desc(got)})
+        got = np.asarray(got)[np.searchsorted(spikes, stored)]
         # the waveforms the features must be projections of: windows x factor on those channels
         W = np.stack([window_ref(self.A, g.samples[s], self.cfg['nsw'], chans)
                       for s in stored]).astype(np.float64) * self.store_factor
@@ -1164,14 +1250,24 @@ class DatasetWorld(object):
                                'bad_channels': np.nonzero(np.any(
                                    np.abs(data[c] - exps[dom[0]]) > 1e-6 * scale,
                                    axis=0))[0].tolist()})
-            exp = exps[match[0]]
-            dom = [match[0]]
             b = ctx.real('get_cluster_mean_waveforms', m.get_cluster_mean_waveforms, c,
                          unwhiten=False, owners=('C08',))
             chl = [int(x) for x in b.channel_ids]
-            ctx.check(set(chl) == lists[dom[0]] and np.all(
-                np.abs(np.asarray(b.mean_waveforms) - exp[:, chl]) <= 1e-6 * scale),
+            # (with exactly tied counts AND templates that are flat where their channel lists
+            # differ, several candidates produce the same stored array: any of them may be the one
+            # the query reports)
+            ctx.check(any(set(chl) == lists[d0] and np.all(
+                np.abs(np.asarray(b.mean_waveforms) - exps[d0][:, chl]) <= 1e-6 * scale)
+                for d0 in match),
                 'cluster-mean-waveforms-inconsistent', lambda: {'cluster': c, 'channels': chl})
+            # history: an unwhitened query in between must not change what the whitened one returns
+            ctx.real('get_cluster_mean_waveforms', m.get_cluster_mean_waveforms, c,
+                     owners=('C08',))
+            b2 = ctx.real('get_cluster_mean_waveforms', m.get_cluster_mean_waveforms, c,
+                          unwhiten=False, owners=('C08',))
+            ctx.check(_aeq(b2.channel_ids, b.channel_ids)
+                      and _aeq(b2.mean_waveforms, b.mean_waveforms),
+                      'cluster-mean-waveforms-changed-by-earlier-query', lambda: {'cluster': c})
 
     # ---------------------------------------------------------------------------------- C09
     def q_summaries(self, op):
